@@ -22,10 +22,12 @@ C14  The tree transformer applies exactly the requested node mapping.
      one-to-many mapping that contains it; the guard in front of ``return
      handle._rebuild(...)`` is evaluated for the four shapes of a handle (another
      node, a node equal to ``o``, a tuple without ``o``, a tuple with ``o``).
- R7  tuple filter: ``visit_tuple`` drops only ``None`` and empty sub-tuples; the
-     filter expression is evaluated over None, (), a non-empty tuple, a plain
-     node, and block nodes that define ``__len__`` (``Section`` / ``Associate``)
-     with empty and non-empty body -- an unmapped node is never dropped.
+ R7  tuple filter: ``visit_tuple`` (in ``Transformer`` and every re-implementation
+     in a subclass, 7 sites) drops only entries mapped to ``None`` or replaced by an
+     empty tuple; the filter expression is evaluated over pairs (original entry,
+     visited entry): plain nodes, block nodes that define ``__len__`` (``Section`` /
+     ``Associate``) with empty and non-empty body, and the entries of *nested* tuple
+     fields (bodies of a multi-conditional), which must be kept even when empty.
      (``as_tuple`` / ``is_iterable`` are modelled: nodes are atomic, tuples are
      iterated; the model is tied to ``_is_atomic_iterable_ir_node`` in their source.)
  R8  drop guard: a mapped node is dropped exactly when ``mapper[o] is None`` --
@@ -217,20 +219,38 @@ def _r6_r7(ctx):
                               f'(e.g. {{loop: loop_clone, stmt_in_loop: None}} must insert loop_clone as it is)', facts={'guard': gs})
     ctx.floor('R6', 'replacement guards', n6, 2)
     n7 = 0
-    items = {'None': (None, False), 'empty tuple': ((), False), 'non-empty tuple': ((_N('a'),), True), 'plain node': (_N('a'), True),
-             'Section/Associate with empty body': (_Block('s', 0), True), 'Section/Associate with body': (_Block('s', 2), True)}
-    for cn in ('Transformer', 'NestedTransformer'):
-        C = m.get_class(FILE, cn)
-        f = C.function('visit_tuple')
-        rets = [r for r in ast.walk(f.node) if isinstance(r, ast.Return) and isinstance(r.value, ast.Call) and r.value.args
-                and isinstance(r.value.args[0], ast.GeneratorExp)]
-        if not rets:
-            raise AnalysisError(f'{cn}.visit_tuple: filtering return not found')
-        gen = rets[-1].value.args[0]
-        var = gen.generators[0].target.id
+    # (original entry, visited entry) -> kept?   An entry of a *nested* tuple field (the body of one branch of a
+    # multi-conditional) stays, even when empty: dropping it shifts the remaining bodies to the wrong branch.
+    NESTED = (_N('stmt'),)
+    items = {'node mapped to None': (_N('a'), None, False), 'node replaced by an empty tuple': (_N('a'), (), False),
+             'node replaced by a non-empty tuple': (_N('a'), (_N('b'),), True), 'plain node': (_N('a'), _N('a'), True),
+             'Section/Associate with empty body': (_Block('s', 0), _Block('s', 0), True),
+             'Section/Associate with body': (_Block('s', 2), _Block('s', 2), True),
+             'non-empty entry of a nested tuple': (NESTED, NESTED, True),
+             'empty entry of a nested tuple (branch without statements)': ((), (), True)}
+    sites = []
+    for mod in m.all_repo_modules(packages=('loki',)):
+        for cls_ in mod.classes.values():
+            fvt = cls_.function('visit_tuple')
+            if fvt is None or m.get_class(FILE, 'Transformer') not in m.mro(cls_):
+                continue
+            rets = [r for r in ast.walk(fvt.node) if isinstance(r, (ast.Return, ast.Assign)) and isinstance(r.value, ast.Call) and r.value.args
+                    and isinstance(r.value.args[0], ast.GeneratorExp) and r.value.args[0].generators[0].ifs]
+            if rets:
+                sites.append((cls_, fvt, rets[-1]))
+    for cls_, f, ret in sites:
+        cn = cls_.name
+        gen = ret.value.args[0]
+        tgt = gen.generators[0].target
         n7 += 1
-        for name, (it, want) in items.items():
-            env = {var: it, 'as_tuple': _as_tuple, 'is_iterable': _is_iterable}
+        for name, (orig, vis, want) in items.items():
+            env = {'as_tuple': _as_tuple, 'is_iterable': _is_iterable, 'isinstance': isinstance, 'tuple': tuple, 'list': list}
+            if isinstance(tgt, ast.Tuple) and len(tgt.elts) == 2:
+                env[tgt.elts[0].id], env[tgt.elts[1].id] = orig, vis
+            elif isinstance(tgt, ast.Name):
+                env[tgt.id] = vis
+            else:
+                raise AnalysisError(f'{cn}.visit_tuple: filter target `{ast.unparse(tgt)}` not recognised')
             try:
                 got = all(bool(ev_ext(c, env)) for c in gen.generators[0].ifs)
             except Unknown as u:
@@ -239,10 +259,12 @@ def _r6_r7(ctx):
             if got == want:
                 ctx.judge('R7', inst)
             else:
-                ctx.violation('R7', inst, f'{f.module.relpath}:{rets[-1].lineno}',
+                ctx.violation('R7', inst, f'{f.module.relpath}:{ret.lineno}',
                               f'the filter `{" and ".join(ast.unparse(c) for c in gen.generators[0].ifs)}` {"keeps" if got else "drops"} '
-                              f'{name}: {"an unmapped node disappears from its parent" if not got else "None / empty entries stay in the body"}')
-    ctx.floor('R7', 'visit_tuple filters', n7, 2)
+                              f'{name}: ' + ('None / empty replacements stay in the body' if got else
+                                             ('the body of a branch without statements disappears and the remaining bodies shift to the wrong '
+                                              'CASE / ELSEWHERE' if 'nested' in name else 'an unmapped node disappears from its parent')))
+    ctx.floor('R7', 'visit_tuple filters of Transformer classes', n7, 6)
 
 
 def run(ctx):
@@ -399,9 +421,13 @@ MUTANTS = [
     Mutant('splice-first-occurrence-only', FILE, "                while k in o[i:]:", "                while k in o[i:] and k not in handle:", expect=('R9', 'repeat')),
     Mutant('replace-guard-as-tuple', FILE, "            if not is_iterable(handle) or o not in handle:\n                return handle._rebuild(**handle.args)\n\n        rebuilt = tuple(",
            "            if o not in as_tuple(handle):\n                return handle._rebuild(**handle.args)\n\n        rebuilt = tuple(", expect=('R6', 'visit_Node:replace:a node equal to o')),
-    Mutant('tuple-filter-by-len', FILE, "        visited = tuple(self.visit(i, **kwargs) for i in o)\n\n        # Strip empty sublists/subtuples or None entries\n        return tuple(i for i in visited if i is not None and as_tuple(i))\n",
-           "        visited = tuple(self.visit(i, **kwargs) for i in o)\n\n        # Strip empty sublists/subtuples or None entries\n        return tuple(i for i in visited if i is not None and (not hasattr(i, '__len__') or len(i) > 0))\n",
+    Mutant('tuple-filter-by-len', FILE,
+           "        return tuple(v for i, v in zip(o, visited) if v is not None and (isinstance(i, tuple) or as_tuple(v)))\n\n    visit_list = visit_tuple\n\n    def visit_Node(self, o, **kwargs):\n        \"\"\"\n        Handler for :any:`Node` objects.\n\n        It replaces",
+           "        return tuple(v for i, v in zip(o, visited) if v is not None and (isinstance(i, tuple) or not hasattr(v, '__len__') or len(v) > 0))\n\n    visit_list = visit_tuple\n\n    def visit_Node(self, o, **kwargs):\n        \"\"\"\n        Handler for :any:`Node` objects.\n\n        It replaces",
            expect=('R7', 'Transformer.visit_tuple:filter:Section/Associate with empty body')),
+    Mutant('tuple-filter-drops-empty-branch-bodies', 'loki/frontend/util.py',
+           "        return tuple(v for i, v in zip(o, visited) if v is not None and (isinstance(i, tuple) or as_tuple(v)))", "        return tuple(i for i in visited if i is not None and as_tuple(i))",
+           count=3, expect=('R7', 'empty entry of a nested tuple')),
     Mutant('neutral-replace-guard-demorgan', FILE, "            if not is_iterable(handle) or o not in handle:\n                return handle._rebuild(**handle.args)\n\n        rebuilt = tuple(",
            "            if not (is_iterable(handle) and o in handle):\n                return handle._rebuild(**handle.args)\n\n        rebuilt = tuple(", expect=None),
     Mutant('handler-ignores-mapper', FILE,
